@@ -27,6 +27,27 @@ def solve(ob, use_cvc5=True):
             skolems.extend(vs)
             goal = z3.substitute_vars(goal.body(), *reversed(vs))
         s.add(z3.Not(goal))
+        # an existential goal: its negation is universal; instantiate it at the integer constants of the path (witness candidates)
+        if z3.is_quantifier(goal) and goal.is_exists() and goal.num_vars() == 1 and goal.var_sort(0) == z3.IntSort():
+            cands = {}
+
+            def walk(t, depth=0):
+                if depth > 40 or len(cands) > 24:
+                    return
+                if z3.is_const(t) and t.decl().kind() == z3.Z3_OP_UNINTERPRETED and t.sort() == z3.IntSort():
+                    cands[str(t)] = t
+                if z3.is_app(t):
+                    for ch in t.children():
+                        walk(ch, depth + 1)
+                elif z3.is_quantifier(t):
+                    walk(t.body(), depth + 1)
+            for c in ob.conds:
+                walk(c)
+            for c in cands.values():
+                s.add(z3.Not(z3.substitute_vars(goal.body(), c)))
+                for h in ob.conds:       # and the universal hypotheses at the same candidates
+                    if z3.is_quantifier(h) and h.is_forall() and h.num_vars() == 1 and h.var_sort(0) == z3.IntSort():
+                        s.add(z3.substitute_vars(h.body(), c))
         # help e-matching: instantiate the single-variable universal hypotheses at the goal's skolem constants
         for c in ob.conds:
             if z3.is_quantifier(c) and c.is_forall() and c.num_vars() == 1:
